@@ -20,7 +20,7 @@ echo "pytest on changed tree: $PYT"
 echo "demo on changed tree exit=$DEMO_BAD (want != 0); on clean tree exit=$DEMO_GOOD (want 0)"
 RES=""
 for C in $ID "$@"; do
-  L=$(SYNPHOT_REPO=$WT ./check $C 2>&1 | grep -v conda | grep -E "^C[0-9]+ tier|^VIOLATION" | head -4 | tr '\n' ';')
+  L=$(SYNPHOT_REPO=$WT ./check $C ${CHECK_ARGS:-} 2>&1 | grep -v conda | grep -E "^C[0-9]+ tier|^VIOLATION" | head -4 | tr '\n' ';')
   echo "check $C on changed tree: $L"
   RES="$RES{\"check\":\"$C\",\"result\":\"$(echo $L | sed 's/"/\\"/g')\"},"
 done
